@@ -135,7 +135,8 @@ class C10History:
             self.fired = fired[0] if fired else None
             if fault and fault.get('persist') and self.fired:
                 self.fired['persist'] = True
-            self.trace.append(['victim', how, r.status,
+            self.trace.append(['victim',
+                               how.replace(sim.world.root, '$W'), r.status,
                                [i.get('outcome') for i in r.inv],
                                self.fired and self.fired['event']])
             if self.fired:
